@@ -292,6 +292,10 @@ pub fn scheme_family(which: usize) -> SchemeSpec {
                 f("q\"uote\\back", Array(b(Bytes)), true),
                 f(&"long.".repeat(40), Map(b(Int)), true),
                 f("nl\nname\t", Map(b(Bytes)), true),
+                // names the engine knows in another role (an exported function, a keyword, a word of its JSON forms)
+                f("concat", Int, true),
+                f("in", Bytes, true),
+                f("type", Array(b(Int)), true),
             ],
             functions: vec!["echo", "lower"],
             lists: vec![],
